@@ -17,7 +17,7 @@ from ..ast.visitor import DefaultVisitor
 from ..fpc_context import FPCoreContext
 from ..interpret import Interpreter, Value, get_default_interpreter
 from ..interpret.value import to_value, unwrap_foreign
-from ..number import REAL
+from ..number import REAL, Float, same_value
 from .define_use import DefineUse, DefineUseAnalysis, Definition, DefSite
 
 
@@ -42,6 +42,19 @@ class PartialEvalInfo:
     by_def: dict[Definition, Value]
     by_expr: dict[Expr, Value]
     def_use: DefineUseAnalysis
+
+
+
+def _same_constant(a, b) -> bool:
+    """Whether two known values are the same constant: `==` calls the two
+    zeros equal, but `+0` and `-0` are different results."""
+    match a, b:
+        case (Float(), Float()):
+            return same_value(a, b)
+        case (tuple(), tuple()) | (list(), list()):
+            return len(a) == len(b) and all(_same_constant(x, y) for x, y in zip(a, b))
+        case _:
+            return type(a) is type(b) and a == b
 
 
 class _PartialEvalInstance(DefaultVisitor):
@@ -109,7 +122,7 @@ class _PartialEvalInstance(DefaultVisitor):
             return a
         if a is _TOP or b is _TOP:
             return _TOP
-        return a if a == b else _TOP
+        return a if _same_constant(a, b) else _TOP
 
     def _merge_branch_phis(self, stmt: Stmt):
         """Merge phis after an ``if`` / ``if-else``: both branches are
